@@ -312,3 +312,6 @@ func (r *Run) DistinctKeys(set string) []string {
 	sort.Strings(k)
 	return k
 }
+
+// Yield lets other goroutines run briefly (used only to wait for an asynchronous dispatcher to drain).
+func Yield() { time.Sleep(200 * time.Microsecond) }
